@@ -18,7 +18,7 @@ const vsPkg = "github.com/daeuniverse/dae/zz_vs"
 func skipInit(path string) bool {
 	switch path {
 	case "runtime", "internal/cpu", "os", "syscall", "internal/poll", "internal/godebug", "reflect",
-		"internal/reflectlite", "internal/bytealg", "internal/syscall/unix", "net", "crypto/rand", "internal/runtime/maps",
+		"internal/reflectlite", "internal/bytealg", "internal/syscall/unix", "crypto/rand", "internal/runtime/maps",
 		"github.com/sirupsen/logrus", "testing", "internal/abi", "runtime/debug", "os/signal", "internal/sync", "sync":
 		return true
 	}
